@@ -20,6 +20,10 @@ CLAIMED = {
          'linearizability over schedules is NOT decided; decided are necessary critical-section conditions: check-then-act under one slice write guard, requests created under the per-cluster guard complete under it, COW merge under per-cluster and L2 slice write guards, eviction prefers unused entries', 'C06'),
  'C07': ('held-lock dataflow, mode-aware lock-order cycle search, guard-across-await scan, insert/lookup typestate',
          'deadlock clause: lock-order relation acyclic (mode aware, one thread per device), no self re-acquisition, no blocking guard across awaits, no suspension between cache insert and re-lookup; livelock/termination not decided', 'C07'),
+ 'C03': ('bit-provenance abstract interpretation of the installers, must-use def-use of the displaced allocation, data-dependence provenance of every release',
+         'COPIED flag and offset field of installed L1/L2 entries, fate of the allocation displaced by map_cluster, source of every free_clusters argument, no constant-zero release count: decided at every site; equality of stored and counted references (arithmetic of spans and counts) not decided', 'C03'),
+ 'C12': ('backend-effect ordering typestate (growth sites of the C04 engine), fault-model typestate for the rollback, data-dependence provenance of the rollback closure, dominance of the zero-length guard, held-lock dataflow',
+         'header switch after the relocated table is synced, old table released after the synced switch, rollback runs and restores old-state values, directly written refblock private and zero-padded, zero-length requests filtered, no self-deadlock on the growth path; computed sizes not decided', 'C12'),
  'C15': ('bit-provenance abstract interpretation of accessor and packing code against the specification bit tables; layout and configuration scans; field-use agreement of inverse key functions',
          'accessor bit fields, compressed descriptor split (13 cluster sizes), refcount get/set for 7 widths x 16 indices, byte-order symmetry, header layout and serialiser configuration, backing-name offset provenance; arithmetic results and round trips not decided', 'C15'),
  'C17': ('error-value def-use discipline + restore/undo typestate in the fault model',
